@@ -86,7 +86,7 @@ func (p *Program) parseContracts(path string, overlay []byte) error {
 		ln   int
 	}
 	var lines []lline
-	reStart := regexp.MustCompile(`^(func|interface|spec|lemma|axiom|requires|ensures|assumes|invariant|decreases|assigns|inline|use|props|trust|check|loop|ghost|abstract|bounded|results|pure)\b`)
+	reStart := regexp.MustCompile(`^(func|interface|spec|lemma|axiom|comparable|appendlemma|fieldinv|eleminv|requires|ensures|assumes|invariant|decreases|assigns|inline|use|props|trust|check|loop|ghost|abstract|bounded|results|pure)\b`)
 	for ln, raw := range rawLines {
 		t := strings.TrimSpace(raw)
 		if !strings.HasPrefix(t, "//@") {
@@ -127,6 +127,43 @@ func (p *Program) parseContracts(path string, overlay []byte) error {
 				p.contracts[name] = cur
 			}
 			curLoop = -1
+			last = nil
+			continue
+		case strings.HasPrefix(t, "fieldinv "), strings.HasPrefix(t, "eleminv "):
+			// fieldinv T.f: expr(v)      eleminv []T: expr(v)
+			kind := t[:strings.Index(t, " ")]
+			rest := strings.TrimSpace(t[len(kind):])
+			ci := strings.Index(rest, ":")
+			if ci < 0 {
+				return fail("bad %s", kind)
+			}
+			key, src := strings.TrimSpace(rest[:ci]), strings.TrimSpace(rest[ci+1:])
+			e, err := parseExpr(src)
+			if err != nil {
+				return fail("%v", err)
+			}
+			if kind == "fieldinv" {
+				p.fieldInvs[key] = &Clause{Src: src, Expr: e, Line: ln + 1}
+			} else {
+				p.elemInvs[key] = &Clause{Src: src, Expr: e, Line: ln + 1}
+			}
+			cur = nil
+			last = nil
+			continue
+		case strings.HasPrefix(t, "appendlemma "):
+			f := strings.Fields(t)
+			if len(f) != 3 {
+				return fail("appendlemma <elem type> <lemma>")
+			}
+			p.appendLemmas[f[1]] = append(p.appendLemmas[f[1]], f[2])
+			cur = nil
+			last = nil
+			continue
+		case strings.HasPrefix(t, "comparable "):
+			for _, n := range strings.Split(t[len("comparable "):], ",") {
+				p.comparable[strings.TrimSpace(n)] = true
+			}
+			cur = nil
 			last = nil
 			continue
 		case strings.HasPrefix(t, "spec "):
@@ -267,6 +304,12 @@ func (p *Program) parseContracts(path string, overlay []byte) error {
 			cur.Trust = append(cur.Trust, rest)
 		case "check":
 			// check panic overflow {C03}
+			if i := strings.Index(rest, "{"); i >= 0 {
+				for _, x := range strings.Split(strings.Trim(strings.TrimSpace(rest[i:]), "{}"), ",") {
+					pl = append(pl, strings.TrimSpace(x))
+				}
+				rest = rest[:i]
+			}
 			for _, c := range strings.Fields(rest) {
 				cur.Checks[c] = pl
 			}
